@@ -62,10 +62,6 @@ ASSUMPTIONS = [
     "three itmd-index keys; integral/bracket exponents up to 2 (3 for a non-matching bracket)",
     "which candidate terms/variants are chosen (relevance filter of factor_itmd, prescans, minimal-overlap choice) is only "
     "constrained as far as the value of the result depends on it; factor_itmd's split is compared with its documented filter",
-    "R11j: orbital-energy NUMERATORS are not compared by _compare_remainder (factor_denom groups by denominator only; the library "
-    "documents that numerators are not treated): the two table rows 'same denominator, other numerator' return -1 on the "
-    "current tree although the remainders are not equal up to a sign; they are evaluated and reported as notes, not as "
-    "violations (set NUMERATOR_ROW_IS_VIOLATION once this is registered as a finding)",
     "R11j: tensors of the remainder model carry no permutational symmetry (renamings are unique), every remainder is a single term",
     "sympy primitives are modelled: sympify, Tuple, _sort_anticommuting_fermions (stable sort by the library's own key "
     "function, which is evaluated), object creation by super().__new__; S.Zero/S.One/S.NegativeOne are pairwise distinct",
@@ -2057,7 +2053,7 @@ def r11i(ctx):
 # ``factor_eri_parts`` groups terms whose tensor parts agree up to a renaming of the non-fixed indices and applies that
 # renaming to the complete term, ``factor_denom`` groups terms by their denominator.
 
-NUMERATOR_ROW_IS_VIOLATION = False   # see ASSUMPTIONS: the library documents that numerators are not compared
+NUMERATOR_ROW_IS_VIOLATION = True   # numerators are part of the remainder (defect F25, repaired in /repo e7f8b9a)
 
 
 def _rn(part, mp):
